@@ -660,13 +660,21 @@ class Shapes(Component):
                 for ls in sorted(SHAPES):
                     for rs in sorted(SHAPES):
                         yield {"kind": kind, "what": what, "tok": ti, "l": ls, "r": rs}
+        # non-inplace converters and the profiler on every table shape and column dtype
+        for ls in sorted(SHAPES):
+            for what in ("series", "frame", "frame-return-col", "profile"):
+                for col in ("val", "cnt", "num"):
+                    yield {"kind": "unary", "what": what, "l": ls, "col": col}
 
     @staticmethod
     def table(shape, base):
         vals = SHAPES[shape]
+        num = [float("nan") if (v is None or v != v or not v.strip()) else float(i)
+               for i, v in enumerate(vals)]
         return pd.DataFrame({"id": list(range(base, base + len(vals))),
                              "val": pd.Series(vals, dtype=object),
-                             "cnt": list(range(len(vals)))})
+                             "cnt": list(range(len(vals))),
+                             "num": pd.Series(num, dtype="float64")})
 
     @staticmethod
     def call(ctx, api, case, tok, L, R, am, nj):
@@ -693,7 +701,30 @@ class Shapes(Component):
             return ctx.lib(f.filter_tables, L, R, "id", "id", "val", "val", None, ["cnt"],
                            n_jobs=nj, show_progress=False)
 
+    def check_unary(self, case, ctx):
+        T = self.table(case["l"], 0)
+        snap = canon.snapshot(T)
+        what, col = case["what"], case["col"]
+        if what == "series":
+            name = "series_to_str"
+            ctx.lib(ssj.series_to_str, T[col], False)
+        elif what == "profile":
+            name = "profile_table_for_join"
+            ctx.lib(ssj.profile_table_for_join, T, [col])
+        else:
+            name = "dataframe_column_to_str"
+            ctx.lib(ssj.dataframe_column_to_str, T, col, False, what == "frame-return-col")
+        if canon.snapshot(T) != snap:
+            ctx.violation("kind=input-table-modified,call=%s" % name,
+                          "%s (%s, not in place) on column %r of a table of shape %r changed "
+                          "the table it was given: %r -> %r"
+                          % (name, what, col, case["l"], snap[2], canon.snapshot(T)[2]))
+        ctx.nontrivial(True)
+        ctx.label("shapes:%s" % name)
+
     def check(self, case, ctx):
+        if case["kind"] == "unary":
+            return self.check_unary(case, ctx)
         name = ("%s_join" % case["what"].lower()) if case["kind"] == "join" else \
             "%s.filter_tables" % case["what"]
         for am in (False, True):
